@@ -9,6 +9,9 @@ use crate::{
 pub(crate) struct SourceLineRanges {
     pub(crate) line_number_end: usize,
     pub(crate) token_ranges: Option<Vec<Range<usize>>>,
+    /// The range of the line's tokenization error, if it has one, widened
+    /// to end on a character boundary.
+    pub(crate) error_range: Option<Range<usize>>,
     pub(crate) length: usize,
 }
 
@@ -75,7 +78,11 @@ impl SourceFileMap {
             DiagnosticMessage::Error(file_line_number, err) => {
                 match &err.error {
                     InterpreterError::Syntax(SyntaxError::Tokenization(t)) => {
-                        let range = t.string_range(self.file_line_ranges[*file_line_number].length);
+                        let ranges = &self.file_line_ranges[*file_line_number];
+                        if let Some(range) = &ranges.error_range {
+                            return Some((*file_line_number, range.clone()));
+                        }
+                        let range = t.string_range(ranges.length);
                         return Some((*file_line_number, range));
                     }
                     _ => {}
